@@ -80,15 +80,20 @@ func c03Build(rt *rapid.T, s *stdSvc, cell c03Cell, g stdIngress) *AMsg {
 	case 0:
 		toHost = []string{"static-udp.test", "static-tcp.test", "static-tls.test"}[cell.Trans]
 		if cell.Trans == 0 {
-			switch rapid.IntRange(0, 5).Draw(rt, "exactkind") {
+			switch rapid.IntRange(0, 7).Draw(rt, "exactkind") {
 			case 0:
 				toHost = "static-noport.test"
 			case 1:
 				toHost = "lit.wudp.test" // literal covered by a wildcard configured before it
+			case 2:
+				toHost = "plain-w.test" // literals of a route item that also lists wildcards
+			case 3:
+				toHost = "tail-lit.test"
 			}
 		}
 	case 1:
-		toHost = lab + []string{".wudp.test", ".wtcp.test", ".wtls.test"}[cell.Trans]
+		// (every position a wildcard can have in a route item with several dests)
+		toHost = lab + [][]string{{".wudp.test", ".wmid.test", ".wlast.test"}, {".wtcp.test", ".wtcp2.test"}, {".wtls.test"}}[cell.Trans][rapid.IntRange(0, 2).Draw(rt, "wildcard position")%[]int{3, 2, 1}[cell.Trans]]
 		if cell.Trans == 0 && rapid.IntRange(0, 3).Draw(rt, "ipv4 to host") == 0 {
 			toHost = fmt.Sprintf("10.20.%d.%d", rapid.IntRange(0, 255).Draw(rt, "o3"), rapid.IntRange(1, 254).Draw(rt, "o4"))
 		}
